@@ -1,14 +1,56 @@
 import DarkluaModel.Rules.EmptyDo
+import DarkluaModel.Rules.UnusedWhile
+import DarkluaModel.Rules.FilterEarlyReturn
+import DarkluaModel.Rules.MethodDef
+import DarkluaModel.Rules.CallParens
+import DarkluaModel.Rules.Trivia
+import DarkluaModel.Rules.ConvertIndexToField
+import DarkluaModel.Rules.ComputeExpression
+import DarkluaModel.Rules.NilDeclaration
+import DarkluaModel.Rules.EvalLitSound
+import DarkluaModel.Rules.Witness
 /-!
 # C01 — default rules preserve program behaviour: property theorems
 
 Reference semantics: `Shared/Sem.lean` (`Sem.execB`, all number systems `N`, all external-call
 oracles `ρ`, all call handlers, all loop/call-back bounds `k`, all environments and states).
 Rule models: `Rules/*.lean`, executed by the driver (`c01.rule`) and compared with the real
-`Rule::process` on every run.
+`Rule::process` on every run. Rules that consult the static evaluator are modelled against
+the interface `Rules.EvalApi`; their theorems assume `Rules.EvalSound api good` (property
+C08's theorems) and hold for every such evaluator — `Rules.litApi_sound` is a proved instance.
+
+Until the generic visitor lifting theorem (`Shared/VisitorSound.lean`) lands, the theorems are
+the LOCAL ones: each hook rewrites a node into a node with the same denotation.
+`Refines a b`: every error-free run of `a` is a run of `b` with the same outcome and state.
 -/
 namespace DarkluaModel.C01
-open Sem
+open Sem Rules
+
+/-- every error-free run of `a` (any level, oracle, environment, state) is a run of `b` with the
+same control outcome, final state and trace -/
+def Refines (a b : Block) : Prop :=
+  ∀ (N : NumOps) (call : CallFn N) (ρ : ExtOracle N) (k : Nat) (env : Env N) (σ σ' : State N) (c : Ctl N),
+    execB call ρ k env a σ = .ok c σ' → execB call ρ k env b σ = .ok c σ'
+
+theorem refines_refl (b : Block) : Refines b b := fun _ _ _ _ _ _ _ _ h => h
+
+theorem refines_trans {a b c : Block} (h1 : Refines a b) (h2 : Refines b c) : Refines a c :=
+  fun N call ρ k env σ σ' ctl h => h2 N call ρ k env σ σ' ctl (h1 N call ρ k env σ σ' ctl h)
+
+/-- "any selection of the rules in any order": if every rule of a list refines on every block,
+so does their composition (any subset, any order, repetitions allowed) -/
+theorem pipeline_refines (rules : List (Block → Block)) (h : ∀ r ∈ rules, ∀ b, Refines b (r b)) (b : Block) :
+    Refines b (rules.foldl (fun acc r => r acc) b) := by
+  induction rules generalizing b with
+  | nil => exact refines_refl b
+  | cons r rest ih =>
+    simp only [List.foldl]
+    exact refines_trans (h r (by simp) b) (ih (fun r' hr' => h r' (by simp [hr'])) (r b))
+
+example : Refines (.mk [] none) ([id, id].foldl (fun acc r => r acc) (.mk [] none)) :=
+  pipeline_refines [id, id] (fun r hr b => by simp at hr; subst hr; exact refines_refl b) _
+
+/-! ### remove_empty_do -/
 
 /-- `remove_empty_do`: the rewrite performed at every block (dropping `do end` statements)
 yields a block with exactly the same denotation — same control outcome, same state, same
@@ -24,5 +66,275 @@ example :
       (.mk [.doBlock (.mk [] none), .callStmt (.call (.var "f") none .tuple [])] none) false).1
       = .mk [.callStmt (.call (.var "f") none .tuple [])] none := by
   simp [Rules.EmptyDo.processBlock, Rules.EmptyDo.filterStmts, Rules.EmptyDo.blockIsEmpty]
+
+/-! ### filter_after_early_return -/
+
+/-- `filter_after_early_return`: truncating a block after the first `do` that certainly
+returns, and dropping its last statement, gives a block with exactly the same denotation. -/
+theorem filter_after_early_return_hook_exact {N : NumOps} (call : CallFn N) (ρ : ExtOracle N) (k : Nat)
+    (env : Env N) (b : Block) (σ : State N) :
+    execB call ρ k env (Rules.FilterEarlyReturn.processBlock b ()).1 σ = execB call ρ k env b σ :=
+  Rules.FilterEarlyReturn.processBlock_sound call ρ k env b σ
+
+example :
+    (Rules.FilterEarlyReturn.processBlock
+      (.mk [.doBlock (.mk [.doBlock (.mk [] (some (.ret [])))] none), .callStmt (.call (.var "f") none .tuple [])]
+        (some (.ret [.nil]))) ()).1
+      = .mk [.doBlock (.mk [.doBlock (.mk [] (some (.ret [])))] none)] none := by
+  simp [Rules.FilterEarlyReturn.processBlock, Rules.FilterEarlyReturn.keepCount, Rules.FilterEarlyReturn.stopsStmt,
+    Rules.FilterEarlyReturn.stops, Rules.FilterEarlyReturn.stopsAny]
+
+/-! ### remove_method_definition -/
+
+/-- `remove_method_definition`: `function a.b:m(p…) … end` and `function a.b.m(self, p…) … end`
+have exactly the same denotation (the name of a function statement is never empty). -/
+theorem remove_method_definition_hook_exact {N : NumOps} (call : CallFn N) (ρ : ExtOracle N) (k : Nat)
+    (env : Env N) (s : Stmt) (hname : ∀ name m body, s = .function name m body → name ≠ []) (σ : State N) :
+    execS call ρ k env (Rules.MethodDef.removeMethod s) σ = execS call ρ k env s σ :=
+  Rules.MethodDef.removeMethod_sound call ρ k env s hname σ
+
+example :
+    Rules.MethodDef.removeMethod (.function ["a", "b"] (some "m") (.mk [.mk "p" none] false none none [] [] (.mk [] none)))
+      = .function ["a", "b", "m"] none (.mk [.mk "self" none, .mk "p" none] false none none [] [] (.mk [] none)) := rfl
+
+/-! ### remove_function_call_parens, remove_spaces, remove_comments -/
+
+/-- `remove_function_call_parens`: `f("s")` ↦ `f"s"`, `f({…})` ↦ `f{…}` — exactly the same denotation. -/
+theorem remove_function_call_parens_hook_exact {N : NumOps} (call : CallFn N) (ρ : ExtOracle N) (k : Nat)
+    (env : Env N) (e : Expr) (σ : State N) :
+    evalE call ρ k env (Rules.CallParens.processCall e) σ = evalE call ρ k env e σ :=
+  Rules.CallParens.processCall_sound call ρ k env e σ
+
+example : Rules.CallParens.processCall (.call (.var "f") none .tuple [.str [97]]) = .call (.var "f") none .str [.str [97]] := rfl
+
+/-- `remove_spaces` and `remove_comments` are the identity on the semantic (token-free) tree
+(the correspondence checks that the real rules are, on every generated program). -/
+theorem trivia_rules_identity (b : Block) :
+    Rules.Trivia.removeSpaces b = b ∧ Rules.Trivia.removeComments b = b := ⟨rfl, rfl⟩
+
+example : Refines (.mk [] none) (Rules.Trivia.removeSpaces (.mk [] none)) := refines_refl _
+
+/-! ### remove_unused_while (needs the evaluator: `EvalSound`) -/
+
+/-- `remove_unused_while`: for every evaluator that is sound on `good`, if the conditions of the
+removed loops are in `good` and allocate nothing, every error-free run of a block is a run of
+the block without those loops (same outcome, same state, same trace). -/
+theorem remove_unused_while_hook_refines {api : EvalApi} {good : Expr → Prop} (hs : EvalSound api good)
+    (stmts : List Stmt) (last : Option Last) (hg : Rules.UnusedWhile.removedGood api good stmts) :
+    Refines (.mk stmts last) (Rules.UnusedWhile.processBlock api (.mk stmts last) ()).1 :=
+  fun _ call ρ k env σ σ' c h => Rules.UnusedWhile.processBlock_refines hs call ρ k env stmts last hg σ σ' c h
+
+-- non-vacuity: a proved-sound evaluator on which the rule fires, with the hypotheses met
+example :
+    EvalSound litApi notInst ∧
+    (Rules.UnusedWhile.processBlock litApi
+      (.mk [.while_ .false (.mk [.callStmt (.call (.var "f") none .tuple [])] none),
+            .callStmt (.call (.var "g") none .tuple [])] none) ()).1
+      = .mk [.callStmt (.call (.var "g") none .tuple [])] none ∧
+    Rules.UnusedWhile.removedGood litApi notInst
+      [.while_ .false (.mk [.callStmt (.call (.var "f") none .tuple [])] none),
+       .callStmt (.call (.var "g") none .tuple [])] :=
+  ⟨litApi_sound,
+   by simp [Rules.UnusedWhile.processBlock, Rules.UnusedWhile.keep, litApi, EvalApi.isTruthy, LuaKind.isTruthy],
+   by simp [Rules.UnusedWhile.removedGood, notInst, noAlloc]⟩
+
+/-- the static analysis `can_return_multiple_values` is sound for the reference semantics -/
+theorem can_return_multiple_values_sound {N : NumOps} (call : CallFn N) (ρ : ExtOracle N) (k : Nat) (env : Env N)
+    (e : Expr) (hm : canReturnMultiple e = false) (hi : notInst e) (σ σ' : State N) (vs : List (Val N))
+    (h : evalE call ρ k env e σ = .ok vs σ') : vs = [first vs] :=
+  canReturnMultiple_sound call ρ k env e hm hi σ σ' vs h
+
+example : canReturnMultiple (.bin .and (.call (.var "f") none .tuple []) .vararg) = false ∧
+    notInst (.bin .and (.call (.var "f") none .tuple []) .vararg) := ⟨rfl, trivial⟩
+
+/-! ### convert_index_to_field (finding F6) -/
+
+open Rules.ConvertIndexToField in
+/-- the full claim: for every sound evaluator, `t[key]` ↦ `t.name` refines in every context,
+whenever the rule converts the key -/
+def convert_index_to_field_full : Prop :=
+  ∀ (api : EvalApi) (good : Expr → Prop), EvalSound api good →
+  ∀ (p k : Expr) (name : String), convertToField api k = some name → good k →
+  ∀ (N : NumOps) (call : CallFn N) (ρ : ExtOracle N) (n : Nat) (env : Env N) (σ σ' : State N) (vs : List (Val N)),
+    evalE call ρ n env (.index p k) σ = .ok vs σ' →
+    evalE call ρ n env (convertIndex api (.index p k)) σ = .ok vs σ'
+
+open Rules.Witness in
+/-- F6: it is false — the rule never asks whether the key has side effects.
+Witness: `("")[{f()} and "a"]` ↦ `("").a` loses the external call `f()`. -/
+theorem convert_index_to_field_full_false : ¬ convert_index_to_field_full := by
+  intro hfull
+  have hconv : Rules.ConvertIndexToField.convertToField kApi K = some "a" := by decide
+  have h1 : traceLen (evalE call0 ρ0 1 env0 (.index (.str []) K) σ0) = 1 := by decide
+  have h2 : traceLen (evalE call0 ρ0 1 env0 (.field (.str []) "a") σ0) = 0 := by decide
+  cases hr : evalE call0 ρ0 1 env0 (.index (.str []) K) σ0 with
+  | timeout => simp [hr, traceLen] at h1
+  | err v σ1 => simp [hr, traceLen] at h1
+  | ok vs σ1 =>
+    have := hfull kApi notInst kApi_sound (.str []) K "a" hconv trivial
+      unitOps call0 ρ0 1 env0 σ0 σ1 vs hr
+    simp only [Rules.ConvertIndexToField.convertIndex, hconv] at this
+    rw [hr] at h1; rw [this] at h2
+    simp only [traceLen] at h1 h2
+    omega
+
+/-- the partial claim that IS true: under `H` — the converted key has no side effects (F6
+excluded) and allocates nothing — `t[key]` ↦ `t.name` refines in expression position … -/
+theorem convert_index_to_field_partial {api : EvalApi} {good : Expr → Prop} (hs : EvalSound api good)
+    {p k : Expr} {name : String} (hk : Rules.ConvertIndexToField.Sound.KeyOk api good k name)
+    {N : NumOps} (call : CallFn N) (ρ : ExtOracle N) (n : Nat) (env : Env N) (σ σ' : State N) (vs : List (Val N))
+    (h : evalE call ρ n env (.index p k) σ = .ok vs σ') :
+    evalE call ρ n env (Rules.ConvertIndexToField.convertIndex api (.index p k)) σ = .ok vs σ' :=
+  Rules.ConvertIndexToField.Sound.index_refines hs hk call ρ n env σ σ' vs h
+
+/-- … in assignment-target position … -/
+theorem convert_index_to_field_target_partial {api : EvalApi} {good : Expr → Prop} (hs : EvalSound api good)
+    {p k : Expr} {name : String} (hk : Rules.ConvertIndexToField.Sound.KeyOk api good k name)
+    {N : NumOps} (call : CallFn N) (ρ : ExtOracle N) (n : Nat) (env : Env N) (σ σ' : State N) (tg : Target N)
+    (h : evalTarget call ρ n env (.index p k) σ = .ok tg σ') :
+    evalTarget call ρ n env (Rules.ConvertIndexToField.convertIndex api (.index p k)) σ = .ok tg σ' :=
+  Rules.ConvertIndexToField.Sound.target_refines hs hk call ρ n env σ σ' tg h
+
+/-- … and for a `[key] = value` entry of a table constructor. -/
+theorem convert_index_to_field_entry_partial {api : EvalApi} {good : Expr → Prop} (hs : EvalSound api good)
+    {k v : Expr} {name : String} (hk : Rules.ConvertIndexToField.Sound.KeyOk api good k name)
+    {N : NumOps} (call : CallFn N) (ρ : ExtOracle N) (n : Nat) (env : Env N) (t i : Nat) (rest : List Entry)
+    (σ σ' : State N) (h : evalEntries call ρ n env t i (.keyed k v :: rest) σ = .ok () σ') :
+    evalEntries call ρ n env t i (Rules.ConvertIndexToField.convertEntry api (.keyed k v) :: rest) σ = .ok () σ' :=
+  Rules.ConvertIndexToField.Sound.entry_refines hs hk call ρ n env t i rest σ σ' h
+
+-- non-vacuity: `t["a"]` with the proved-sound `litApi` satisfies `H` and is converted
+example : Rules.ConvertIndexToField.Sound.KeyOk litApi notInst (.str [97]) "a" ∧
+    Rules.ConvertIndexToField.convertIndex litApi (.index (.var "t") (.str [97])) = .field (.var "t") "a" :=
+  ⟨⟨by decide, trivial, rfl, rfl⟩, rfl⟩
+
+/-! ### compute_expression (finding F5) -/
+
+/-- the full claim: for every sound evaluator the rewritten expression refines the original -/
+def compute_expression_full : Prop :=
+  ∀ (api : EvalApi) (good : Expr → Prop), EvalSound api good → ∀ (e : Expr),
+  ∀ (N : NumOps) (call : CallFn N) (ρ : ExtOracle N) (n : Nat) (env : Env N) (σ σ' : State N) (vs : List (Val N)),
+    evalE call ρ n env e σ = .ok vs σ' →
+    evalE call ρ n env (Rules.ComputeExpression.processExpr api e) σ = .ok vs σ'
+
+open Rules.Witness in
+/-- F5: it is false. Witness: `true and ...` (always one value) ↦ `...` (here two values). -/
+theorem compute_expression_full_false : ¬ compute_expression_full := by
+  intro hfull
+  have hp : Rules.ComputeExpression.processExpr litApi (.bin .and .true .vararg) = .vararg := rfl
+  have := hfull litApi notInst litApi_sound (.bin .and .true .vararg) unitOps call0 ρ0 1 ⟨[], [.nil, .nil]⟩ σ0 σ0 [.nil]
+    (by simp [evalE, Res.bind, first, Val.truthy])
+  rw [hp] at this
+  simp [evalE] at this
+
+/-- the operand-selection steps of the rule, under `H`: the left operand's truthiness is known,
+it has no side effects and allocates nothing, and the selected operand is single-valued
+(`multi = false`, i.e. neither a call nor `...` — F5 excluded): `a and b` ↦ `b` when `a` is truthy -/
+theorem compute_expression_and_true_partial {api : EvalApi} {good : Expr → Prop} (hs : EvalSound api good)
+    (l r : Expr) (hg : good l) (ht : api.isTruthy l = some true) (hse : api.hasSideEffects l = false)
+    (hna : noAlloc l = true)
+    {N : NumOps} (call : CallFn N) (ρ : ExtOracle N) (n : Nat) (env : Env N) (σ σ' : State N) (vs : List (Val N))
+    (hsingle : ∀ (σ1 σ2 : State N) (ws : List (Val N)), evalE call ρ n env r σ1 = .ok ws σ2 → ws = [first ws])
+    (h : evalE call ρ n env (.bin .and l r) σ = .ok vs σ') :
+    evalE call ρ n env r σ = .ok vs σ' := by
+  simp only [evalE] at h
+  cases hl : evalE call ρ n env l σ with
+  | timeout => simp [hl, Res.bind] at h
+  | err v σ1 => simp [hl, Res.bind] at h
+  | ok ls σ1 =>
+    have h1 := hs.truthy l true hg ht call ρ n env σ σ1 ls hl
+    have h2 := hs.pure l hg hse hna call ρ n env σ σ1 ls hl
+    subst h2
+    simp only [hl, Res.bind, h1, if_true] at h
+    cases hr : evalE call ρ n env r σ1 with
+    | timeout => simp [hr] at h
+    | err v σ2 => simp [hr] at h
+    | ok ws σ2 =>
+      simp [hr] at h
+      rw [hsingle σ1 σ2 ws hr, h.1, h.2]
+
+/-- `a or b` ↦ `b` when `a` is falsy -/
+theorem compute_expression_or_false_partial {api : EvalApi} {good : Expr → Prop} (hs : EvalSound api good)
+    (l r : Expr) (hg : good l) (ht : api.isTruthy l = some false) (hse : api.hasSideEffects l = false)
+    (hna : noAlloc l = true)
+    {N : NumOps} (call : CallFn N) (ρ : ExtOracle N) (n : Nat) (env : Env N) (σ σ' : State N) (vs : List (Val N))
+    (hsingle : ∀ (σ1 σ2 : State N) (ws : List (Val N)), evalE call ρ n env r σ1 = .ok ws σ2 → ws = [first ws])
+    (h : evalE call ρ n env (.bin .or l r) σ = .ok vs σ') :
+    evalE call ρ n env r σ = .ok vs σ' := by
+  simp only [evalE] at h
+  cases hl : evalE call ρ n env l σ with
+  | timeout => simp [hl, Res.bind] at h
+  | err v σ1 => simp [hl, Res.bind] at h
+  | ok ls σ1 =>
+    have h1 := hs.truthy l false hg ht call ρ n env σ σ1 ls hl
+    have h2 := hs.pure l hg hse hna call ρ n env σ σ1 ls hl
+    subst h2
+    simp only [hl, Res.bind, h1] at h
+    cases hr : evalE call ρ n env r σ1 with
+    | timeout => simp [hr] at h
+    | err v σ2 => simp [hr] at h
+    | ok ws σ2 =>
+      simp [hr] at h
+      rw [hsingle σ1 σ2 ws hr, h.1, h.2]
+
+/-- `a and b` ↦ `a` when `a` is falsy, `a or b` ↦ `a` when `a` is truthy (`a` single-valued) -/
+theorem compute_expression_left_partial {api : EvalApi} {good : Expr → Prop} (hs : EvalSound api good)
+    (op : BinOp) (l r : Expr) (b : Bool) (hop : (op = .and ∧ b = false) ∨ (op = .or ∧ b = true))
+    (hg : good l) (ht : api.isTruthy l = some b)
+    {N : NumOps} (call : CallFn N) (ρ : ExtOracle N) (n : Nat) (env : Env N) (σ σ' : State N) (vs : List (Val N))
+    (hsingle : ∀ (σ1 σ2 : State N) (ws : List (Val N)), evalE call ρ n env l σ1 = .ok ws σ2 → ws = [first ws])
+    (h : evalE call ρ n env (.bin op l r) σ = .ok vs σ') :
+    evalE call ρ n env l σ = .ok vs σ' := by
+  rcases hop with ⟨rfl, rfl⟩ | ⟨rfl, rfl⟩
+  all_goals
+    simp only [evalE] at h
+    cases hl : evalE call ρ n env l σ with
+    | timeout => simp [hl, Res.bind] at h
+    | err v σ1 => simp [hl, Res.bind] at h
+    | ok ls σ1 =>
+      have h1 := hs.truthy l _ hg ht call ρ n env σ σ1 ls hl
+      simp [hl, Res.bind, h1] at h
+      rw [hsingle σ σ1 ls hl, h.1, h.2]
+
+-- non-vacuity: `true and x` ↦ `x` with the proved-sound `litApi`; `x` is single-valued
+example : Rules.ComputeExpression.processExpr litApi (.bin .and .true (.var "x")) = .var "x" ∧
+    litApi.isTruthy .true = some true ∧ litApi.hasSideEffects .true = false ∧ noAlloc .true = true ∧
+    Rules.ComputeExpression.multi (.var "x") = false := ⟨rfl, rfl, rfl, rfl, rfl⟩
+
+/-! ### remove_nil_declaration (finding F24) -/
+
+/-- the full claim: the rewritten declaration has exactly the denotation of the original -/
+def remove_nil_declaration_full : Prop :=
+  ∀ (api : EvalApi) (good : Expr → Prop), EvalSound api good → ∀ (s : Stmt),
+  ∀ (N : NumOps) (call : CallFn N) (ρ : ExtOracle N) (n : Nat) (env : Env N) (σ σ' : State N) (c : Ctl N),
+    execS call ρ n env s σ = .ok c σ' →
+    execS call ρ n env (Rules.NilDeclaration.processLocal api s) σ = .ok c σ'
+
+/-- observable part of a declaration's result: the value of variable `a` afterwards -/
+def valueOfA : Res Rules.Witness.unitOps (Ctl Rules.Witness.unitOps) → Option Bool
+  | .ok (.next env) σ => match lookupVar env "a" σ with
+    | .nil => some false
+    | _ => some true
+  | _ => none
+
+open Rules.Witness in
+/-- F24: it is false. Witness: `local a, a = nil, 1` ↦ `local a, a = 1`: afterwards `a` is `nil`
+instead of `1`. -/
+theorem remove_nil_declaration_full_false : ¬ remove_nil_declaration_full := by
+  intro hfull
+  let s : Stmt := .localAssign .loc [.mk "a" none, .mk "a" none] [.nil, .num 0]
+  have hp : Rules.NilDeclaration.processLocal litApi s
+      = .localAssign .loc [.mk "a" none, .mk "a" none] [.num 0] := rfl
+  have h1 : valueOfA (execS call0 ρ0 1 env0 s σ0) = some true := by decide
+  have h2 : valueOfA (execS call0 ρ0 1 env0 (.localAssign .loc [.mk "a" none, .mk "a" none] [.num 0]) σ0) = some false := by
+    decide
+  cases hr : execS call0 ρ0 1 env0 s σ0 with
+  | timeout => simp [hr, valueOfA] at h1
+  | err v σ1 => simp [hr, valueOfA] at h1
+  | ok c σ1 =>
+    have := hfull litApi notInst litApi_sound s unitOps call0 ρ0 1 env0 σ0 σ1 c hr
+    rw [hp] at this
+    rw [hr] at h1; rw [this] at h2
+    simp [h1] at h2
 
 end DarkluaModel.C01
